@@ -1,0 +1,77 @@
+//! Verification hooks. Compiled only with `--cfg rtcm_rs_verif`; with the flag
+//! off this file is not part of the crate.
+//!
+//! * re-exports the crate-private bit-level machinery so an external harness can
+//!   drive `Assembler`, `Parser` and the `dfs::<id>::{encode,decode}` field codecs;
+//! * offers a thread-local event sink that records one event per `Assembler::put`
+//!   / `Parser::parse` call (disabled unless a harness installs it).
+
+pub use crate::df::{assembler::Assembler, bit_value, dfs, parser::Parser};
+
+#[cfg(feature = "std")]
+pub mod sink {
+    use core::fmt::Debug;
+    use std::cell::RefCell;
+    use std::format;
+    use std::string::String;
+    use std::vec::Vec;
+
+    /// One bit-level call as seen at its linearisation point.
+    #[derive(Clone, Debug)]
+    pub struct Event {
+        /// "put", "parse" or "consume"
+        pub op: &'static str,
+        /// `core::any::type_name` of the `BitValue` marker (e.g. `...::U16`, `...::SM32`)
+        pub it: &'static str,
+        /// field width in bits
+        pub len: usize,
+        /// bit cursor before the call
+        pub off: usize,
+        /// size of the underlying buffer in bits
+        pub cap_bits: usize,
+        /// false when the call reports `BufferOverflow`
+        pub ok: bool,
+        /// the carrier value (argument of put / result of parse), decimal
+        pub value: String,
+    }
+
+    thread_local! {
+        static SINK: RefCell<Option<Vec<Event>>> = RefCell::new(None);
+    }
+
+    /// Start recording on this thread (drops anything recorded so far).
+    pub fn install() {
+        SINK.with(|s| *s.borrow_mut() = Some(Vec::new()));
+    }
+    /// Stop recording and return the events.
+    pub fn take() -> Vec<Event> {
+        SINK.with(|s| s.borrow_mut().take().unwrap_or_default())
+    }
+    #[inline]
+    pub fn record<V: Debug>(
+        op: &'static str,
+        it: &'static str,
+        len: usize,
+        off: usize,
+        cap_bits: usize,
+        ok: bool,
+        value: Option<&V>,
+    ) {
+        SINK.with(|s| {
+            if let Some(v) = s.borrow_mut().as_mut() {
+                v.push(Event {
+                    op,
+                    it,
+                    len,
+                    off,
+                    cap_bits,
+                    ok,
+                    value: match value {
+                        Some(x) => format!("{:?}", x),
+                        None => String::new(),
+                    },
+                });
+            }
+        });
+    }
+}
